@@ -212,7 +212,7 @@ def run(pid, tier):
             if hang:
                 what = "%s did not return within %d s on %s with n=%d (%d bytes)" % (o["entry"], hang[0]["us"] // 1000000, o["family"], hang[0]["n"], hang[0]["len"])
                 if known_class(findings, o):
-                    chk.known_finding("D15")
+                    chk.known_finding(known_class(findings, o))
                 else:
                     chk.violation(what, {"family": o["family"], "unit": o["unit"], "entry": o["entry"], "points": pts})
                 continue
@@ -239,7 +239,7 @@ def run(pid, tier):
             ratios = [round(m["points"][i + 1]["work"] / m["points"][i]["work"], 2) for i in range(len(m["points"]) - 1)]
             what = "work of %s grows faster than quadratically on family %s (unit %r): ratios per doubling %s" % (m["entry"], m["family"], m["unit"], ratios)
             if known_class(findings, m):
-                chk.known_finding("D15")
+                chk.known_finding(known_class(findings, m))
             else:
                 chk.violation(what, {"family": m["family"], "unit": m["unit"], "entry": m["entry"], "points": m["points"]})
         # margins (recorded, not judged): the largest per-doubling ratio in the judged window, per kind of measurement
@@ -261,11 +261,11 @@ def run(pid, tier):
         states += gen.distinct + pv.distinct
         trans += gen.generated + pv.generated
         for f in findings:
-            if f["id"] == "D15":
-                if chk.known.get("D15"):
-                    log("KNOWN-FINDING: property=%s D15: %s" % (pid, f["what"]))
+            if f["id"] in ("D15", "D25"):
+                if chk.known.get(f["id"]):
+                    log("KNOWN-FINDING: property=%s %s: %s" % (pid, f["id"], f["what"]))
                 else:
-                    log("note: listed finding D15 no longer reproduces")
+                    log("note: listed finding %s no longer reproduces" % f["id"])
         chk.cov.update(evaluations=chk.cov.get("text_inputs", 0) * 9 + chk.cov.get("degenerate_models", 0) * 6 + sum(len(m["points"]) for m in measured),
                        distinct_nontrivial=len(set(alltexts.values())) + len(uniq) + len(measured),
                        rule="a: valid token streams of the layout specification with 1 (exhaustive on a block of documents) or 2 (sampled) token edits, rendered by TLC; b: 3 base models x sets of <= %d of 120 "
@@ -293,8 +293,14 @@ def timed_suffix(pts):
 
 
 def known_class(findings, m):
-    """class predicate of D15: the pumped unit contains a form feed, and the entry point lexes DSL text"""
-    return any(f["id"] == "D15" for f in findings) and "\f" in m.get("unit", "") and m["entry"] in ("TransformDSLToProto", "TransformModuleFilesToModel", "TransformDSLToJSON", "TransformModularDSLToProto")
+    """class predicates: D15 - the pumped unit contains a form feed and the entry point lexes DSL text; D25 - the family is the clique
+    of relations and the entry point is the plain graph (GetCycles enumerates elementary cycles). Returns the finding id or None."""
+    ids = {f["id"] for f in findings}
+    if "D15" in ids and "\f" in m.get("unit", "") and m["entry"] in ("TransformDSLToProto", "TransformModuleFilesToModel", "TransformDSLToJSON", "TransformModularDSLToProto"):
+        return "D15"
+    if "D25" in ids and m.get("family") == "clique" and m["entry"].startswith("NewAuthorizationModelGraph"):
+        return "D25"
+    return None
 
 
 def replay(pid, path):
